@@ -50,4 +50,4 @@ def search(rng, ops, broken):
 
 
 # tie theorems (substrings of SLV.Gen.*Tie theorem names) this property's operators depend on
-TIE = ['gen_mul_eq', 'gen_comul_eq', 'gen_projection_eq', 'gen_check_simplex_eq', 'gen_check_base_rate_eq', 'BSimplex_try_new', 'gen_try_new_eq', 'gen_new_eq']
+TIE = ['gen_mul_eq', 'gen_comul_eq', 'gen_projection_eq', 'gen_check_simplex_eq', 'gen_check_base_rate_eq', 'BSimplex_try_new', 'gen_try_new_eq', 'gen_new_eq', 'gen_is_in_range_eq', 'gen_in_unit_interval_eq', 'gen_is_one_eq', 'gen_is_zero_eq', 'gen_check_unit_interval_eq', 'gen_check_is_one_eq']
